@@ -241,6 +241,8 @@ XCHECK = [
     ("(stats_divisions ((5 9) (0 5)))", "stats_divisions [(5,9);(0,5)]%Z"),
     ("(presorted_divisions ((0 2) (3 3) (4 8)))", "presorted_divisions [(0,2);(3,3);(4,8)]%Z"),
     ("(presorted_divisions ((0 3) (3 5)))", "presorted_divisions [(0,3);(3,5)]%Z"),
+    ("(loc_model (0 10 20 30) ((0 5) (10 15) (20 25 30)) (some 12) (some 22))",
+     "(ls_start [0;10;20;30]%Z (Some 12%Z), ls_stop [0;10;20;30]%Z (Some 12%Z) (Some 22%Z), loc_divisions [0;10;20;30]%Z (Some 12%Z) (Some 22%Z), loc_parts [0;10;20;30]%Z [[0;5];[10;15];[20;25;30]]%Z (Some 12%Z) (Some 22%Z))"),
 ]
 
 
@@ -298,7 +300,7 @@ def extraction_crosscheck():
     os.makedirs(os.path.join(BUILD, "cases"), exist_ok=True)
     path = os.path.join(BUILD, "cases", "xcheck_%d.v" % os.getpid())
     with open(path, "w") as f:
-        f.write("From DX Require Import Base TreeReduce Repart Divisions MinMax.\nSet Printing Width 1000000.\nSet Printing Depth 100000.\n")
+        f.write("From DX Require Import Base TreeReduce Repart Divisions MinMax Loc.\nSet Printing Width 1000000.\nSet Printing Depth 100000.\n")
         for _, t in XCHECK:
             f.write("Eval vm_compute in (%s).\n" % t)
     rc, out = sh("timeout 600 coqc -Q %s DX %s" % (COQ, path), cwd=os.path.dirname(path))
